@@ -1,9 +1,10 @@
 CONSTANTS
   Kind = "ImmutableMultiDict"
   Keys <- KeysAB
-  Vals <- Vals12
-  MaxList = 2
+  Vals <- Vals1
+  MaxList = 1
   MaxEnt = 2
+  SrcMode = "small"
 INIT Init
 NEXT Next
 VIEW View
